@@ -92,11 +92,14 @@ class _OneStep(Contract):
         ok = isinstance(res, SList) and res.kind == 'ttref'
         yield 'returns-list-of-TT', ok
         if ok:
-            n = zi(S.o['step_sizes'].len_term()) + 1
+            n = self.nstates(S)
             yield from (('trajectory:' + a, b) for a, b in trajectory(self, res, n, S.o['initial_value'], S.mark0, None))
 
+    def nstates(self, S):
+        return zi(S.o['step_sizes'].len_term()) + 1
+
     def canary(self, S, res):
-        return zi(res.len_term()) == zi(S.o['step_sizes'].len_term()) if isinstance(res, SList) else None
+        return zi(res.len_term()) == self.nstates(S) - 1 if isinstance(res, SList) else None
 
     def loop_inv(self, V, i):
         yield from trajectory(self, V['solution'], zi(i) + 1, V.old('initial_value'), V.mark0, V.state.mark)
@@ -171,6 +174,72 @@ class ImplicitEuler(_Implicit):
 class TrapezoidalRule(_Implicit):
     name, func = 'fn:trapezoidal_rule', 'trapezoidal_rule'
     loop_ordinals = {0: 'i in range(len(step_sizes))'}
+
+
+def operator_like(t, op, mark0=None):
+    """t is a valid TT operator with the dimensions of `op` and boundary ranks 1 (optionally: allocated by this call)"""
+    from vt.e1.contract import valid
+    d = zi(op.order)
+    c = [zi(t.order) == d, valid(t), same_ints(t.row_dims, op.row_dims, d), same_ints(t.col_dims, op.col_dims, d), boundary_one(t)]
+    if mark0 is not None:
+        c += [meta_fresh(t, mark0), cores_fresh(t, mark0)]
+    return z3.And(*c)
+
+
+@register
+class Hod(_OneStep):
+    name, func = 'fn:hod', 'hod'
+    K0, K1, K2 = 'k in range(2, order // 2 + 1)#0', 'i in range(number_of_steps)', 'k in range(2, order // 2 + 1)#2'
+    loop_ordinals = {0: K0, 1: K1, 2: K2}
+
+    def instances(self):
+        return [{'normalize': nz, 'previous_value': p, 'op_hod': o} for nz in (0, 1, 2) for p in ('None', 'TT') for o in ('None', 'TT')]
+
+    def quick_instances(self):
+        return [i for i in self.instances() if i['normalize'] == 1 or (i['previous_value'], i['op_hod']) == ('None', 'None')]
+
+    def defaults(self):
+        return {'order': 2, 'previous_value': NONE, 'op_hod': NONE, 'threshold': SNum('thr', nonneg=z3.BoolVal(True)), 'max_rank': 50,
+                'normalize': 1, 'progress': True}
+
+    def setup(self, ex, state, inst):
+        m0 = ex.ctx.mark0
+        op = mk_tt(state, 'operator', m0)
+        init = mk_tt(state, 'initial_value', m0, order=op.order)
+        mr = SMaxRank('max_rank')
+        p = {'operator': op, 'initial_value': init, 'step_size': SNum('step_size'), 'number_of_steps': fresh('number_of_steps'), 'order': fresh('order'),
+             'previous_value': mk_tt(state, 'previous_value', m0, order=op.order) if inst['previous_value'] == 'TT' else NONE,
+             'op_hod': mk_tt(state, 'op_hod', m0, order=op.order) if inst['op_hod'] == 'TT' else NONE,
+             'threshold': SNum('threshold', nonneg=z3.BoolVal(True)), 'max_rank': mr, 'normalize': inst['normalize'], 'progress': False}
+        return p
+
+    def nstates(self, S):
+        return zi(S.o['number_of_steps']) + 1
+
+    def requires(self, S):
+        yield from _OneStep.requires(self, S)
+        op, x = S.a['operator'], S.a['initial_value']
+        d = zi(op.order)
+        yield 'steps>=0', zi(S.a['number_of_steps']) >= 0
+        pv, oh = S.a['previous_value'], S.a['op_hod']
+        if isinstance(pv, STT):
+            yield 'previous_value', z3.And(zi(pv.order) == d, same_ints(pv.row_dims, x.row_dims, d), FA(0, d, lambda j: lst_get(pv.col_dims, j) == 1), boundary_one(pv))
+        if isinstance(oh, STT):
+            yield 'op_hod', z3.And(zi(oh.order) == d, same_ints(oh.row_dims, op.row_dims, d), same_ints(oh.col_dims, op.col_dims, d), boundary_one(oh))
+
+    def invariant(self, key, inst):
+        me = self
+
+        def series(first):
+            def inv(V, k, _):
+                op = V.old('operator')
+                yield 'op_tmp', operator_like(V['op_tmp'], op, V.mark0)
+                yield first, operator_like(V[first], op, V.mark0)
+            return inv
+
+        def main(V, i, _):
+            yield from me.loop_inv(V, i)
+        return {self.K0: series('op_hod'), self.K1: main, self.K2: series('op_first')}.get(key)
 
 
 # ----------------------------------------------------------------------------------------------------------------------
